@@ -3,7 +3,7 @@ z3 (python API, in a worker process, fixed seed) first; anything not `unsat` is 
 /usr/bin/cvc5 (--strings-exp) and z3-new as second opinions.  Verdicts: proved / refuted (a model exists) /
 unknown.  `unknown` is never turned into a violation by this module."""
 from __future__ import annotations
-import os, subprocess, time, multiprocessing as mp
+import os, subprocess, sys, time, multiprocessing as mp
 import z3
 
 QUICK_MS = int(os.environ.get("PYVC_Z3_MS", "20000"))
@@ -115,6 +115,41 @@ def _work(job):
     return res
 
 
+def _pool_run(jobs, procs):
+    """Forked worker pool with a watchdog.  A worker forked while a z3 timer thread of the parent held a lock can hang for
+    ever (fork + threads); no result for longer than any job may take => the pool is killed and the open jobs are run again
+    in a fresh pool, then - if that hangs too - reported as `unknown` (undecided, never a verdict)."""
+    import multiprocessing as _mp
+    ctx = _mp.get_context("fork")
+    todo = {j[0]: j for j in jobs}
+    done = {}
+    for attempt in (1, 2):
+        if not todo:
+            break
+        pend = list(todo.values())
+        # a job may use its z3 budget plus two CLI fallbacks of <= 10 s each
+        idle_limit = max(j[1] for j in pend) / 1000.0 + 30 + 60
+        pool = ctx.Pool(min(procs, len(pend)))
+        try:
+            it = pool.imap_unordered(_work, pend, chunksize=1)   # chunksize 1: the iterator supports next(timeout)
+            while len(done) < len(jobs) and todo:
+                try:
+                    r = it.next(timeout=idle_limit)
+                except StopIteration:
+                    break
+                except _mp.TimeoutError:
+                    sys.stderr.write(f"solve: no result from the worker pool for {idle_limit:.0f}s ({len(todo)} jobs open), attempt {attempt}: pool killed\n")
+                    break
+                done[r["idx"]] = r
+                todo.pop(r["idx"], None)
+        finally:
+            pool.terminate()
+            pool.join()
+    for idx in todo:
+        done[idx] = {"idx": idx, "tries": [{"backend": "worker-pool", "result": "unknown", "s": 0.0}], "verdict": "unknown", "model": "solver worker hung twice", "backend": "none", "s": 0.0}
+    return list(done.values())
+
+
 def discharge(obligations, timeout_ms=None, seed=0, procs=None, confirm=False, fallback=True):
     """obligations: list of engine.Obligation.  Returns list of result dicts aligned with the input."""
     global _OBS
@@ -133,9 +168,7 @@ def discharge(obligations, timeout_ms=None, seed=0, procs=None, confirm=False, f
     if len(jobs) <= 2 or procs == 1:
         out = [_work(j) for j in jobs]
     else:
-        ctx = mp.get_context("fork")
-        with ctx.Pool(procs) as pool:
-            out = pool.map(_work, jobs, chunksize=max(1, len(jobs) // (procs * 4)))
+        out = _pool_run(jobs, procs)
     out.sort(key=lambda r: r["idx"])
     if confirm:
         for r, ob in zip(out, obligations):
